@@ -144,6 +144,52 @@ def stress_scenario(ctx, log, run_id, rnd, quick):
         t.stop()
 
 
+def busy_keepalive_scenario(ctx, log, run_id, rnd):
+    """"... and the connection stays usable when keep-alive is on": with max_connection_idle = 2 s and a
+    cleaning pass every second, a kept-alive connection that carries only scrapes and one that carries
+    only announces, each sending a request every 0.3 s for about 6 s, must have every request answered.
+    If the driver itself pauses for 0.8 s or more between a reply and the next request (overloaded
+    machine) the attempt says nothing and is discarded."""
+    for attempt in range(3):
+        port = free_port(socket.SOCK_STREAM)
+        cfg = http_config(port, 1, 2, True, max_scrape=5, max_peers=5)
+        cfg["cleaning"]["max_connection_idle"] = 2
+        cfg["cleaning"]["connection_cleaning_interval"] = 1
+        t = Tracker(ctx, "http", cfg, "c16_busy")
+        local = Log()
+        slow = False
+        try:
+            tcp_wait_ready(("127.0.0.1", port), tracker=t)
+            local.add({"ev": "reset", "run": run_id, "socket_workers": 1, "swarm_workers": 2, "keep_alive": True,
+                       "max_scrape": 5, "max_peers": 5, "scenario": "busy_keepalive"})
+            cs = HttpConn("127.0.0.2", ("127.0.0.1", port))
+            ca = HttpConn("127.0.0.3", ("127.0.0.1", port))
+            t0 = last = time.monotonic()
+            i = 0
+            while time.monotonic() - t0 < 6.2:
+                for conn, nm, req in ((cs, "busy_s", {"kind": "scrape", "hs": [1, 2]}),
+                                      (ca, "busy_a", {"kind": "announce", "h": 1 + i % 2, "port": 5400 + i % 3})):
+                    if time.monotonic() - last >= 0.8:
+                        slow = True
+                    out = do_request(local, conn, "%s%d" % (nm, run_id), i, req, rnd)
+                    last = time.monotonic()
+                    i += 1
+                time.sleep(0.3)
+            cs.close()
+            ca.close()
+            if not t.alive():
+                local.add({"ev": "tracker_died", "stderr": t.stderr()[-600:], "stdout": t.stdout()[-300:]})
+        finally:
+            t.stop()
+        if not slow:
+            for e in local.events:
+                log.add(e)
+            ctx.coverage["busy_keepalive"] = {"requests": i, "seconds": 6.2, "max_connection_idle": 2,
+                                              "attempts": attempt + 1}
+            return
+    ctx.coverage["busy_keepalive"] = {"skipped": "driver paused >= 0.8 s between requests in 3 attempts (machine overloaded)"}
+
+
 def digits_scenario(ctx, log, run_id, rnd):
     """Replies of 4-, 2- and 3-digit lengths in turn on one kept-alive connection (the Content-Length
     field of the re-used header buffer must be rewritten cleanly each time)."""
@@ -274,6 +320,7 @@ def run(ctx):
         scenario(ctx, log, k, sw, ww, ka, rnd, ctx.quick(), every_offset=(not ctx.quick() and k == len(combos) - 2))
     digits_scenario(ctx, log, 90, rnd)
     stress_scenario(ctx, log, 91, rnd, ctx.quick())
+    busy_keepalive_scenario(ctx, log, 92, rnd)
     tp = ctx.path("http_server.ndjson")
     with open(tp, "w") as f:
         for e in log.events:
